@@ -178,7 +178,7 @@ CHECKS = {
                          {"ws": "harness", "bin": "seq_lru", "args": [], "timeout": 3600}],
         },
         "text": "Queue: 2-3 threads x 1-2 calls x cores that accept every batch / limit batches to two / refuse batching x 2 or 4 wait-list slots: every call returns f(own input), the core sees every input exactly once, program order and real-time order are preserved, batch limits are respected, and loom's deadlock detector finds no execution in which a call blocks forever. Wait list: 2-3 threads through 1, 2 or 4 slots (more waiters than slots): waiters become head in link order, nobody is lost. LRU: 2 threads x 2 operations linearizable against a map; sequentially, all 7.8 M operation sequences <= 5 (148 M <= 6 thorough) over insert / insert_no_evict / lookup / remove / pop with sizes {1,3} and capacities {0,3,4} against a set-valued LRU reference, and all wait-list link/unlink/notify/iterate sequences <= 8 over 4 guards.",
-        "note": "The LRU reference admits both answers where the documentation is silent (does overwrite refresh recency). loom bounds as for C17.",
+        "note": "The LRU reference admits both answers where the documentation is silent (does overwrite refresh recency). loom bounds as for C17. Wait list with early leavers: 3-4 threads through 1-2 slots (two more waiters than slots) where one or two waiters unlink as soon as they are linked, head or not, as a follower of the coalescing queue does; the head's unlink then frees several slots at once and every blocked linker must still get in (loom's deadlock detector).",
     },
     "C19": {
         "level": "exploration",
@@ -243,7 +243,7 @@ CHECKS = {
             "quick": [{"ws": "harness", "bin": "seq_cursor", "args": [], "timeout": 1800}],
             "thorough": [{"ws": "harness", "bin": "seq_cursor", "args": [], "timeout": 7200}],
         },
-        "text": "Children are in-memory vector cursors with exactly the reference semantics (LazyCursor gets real SSTs on tmpfs). All families of <= 3 tables with <= 2 entries (thorough: up to 3) over keys {a,b,c} x timestamps {1,2,3} x {value, tombstone}, including empty tables, tombstone-only tables and one key's versions split across adjacent tables: MergingCursor = sorted union; ConcatenatingCursor (key-disjoint ordered tables) = concatenation; BoundsCursor with all 25 bound pairs = restriction; PruningCursor at timestamps {0,1,2,3,MAX} = newest version <= t per key unless a tombstone; LazyCursor = the cursor it opens. Every program of <= L calls (quick 3; thorough up to 5 on the small families) including every direction reversal is compared with the specification cursor after the last call.",
+        "text": "Children are in-memory vector cursors with exactly the reference semantics (LazyCursor gets real SSTs on tmpfs). All families of <= 3 tables with <= 2 entries (thorough: up to 3) over keys {a,b,c} x timestamps {0, 2, u64::MAX} x {value, tombstone}, including empty tables, tombstone-only tables and one key's versions split across adjacent tables: MergingCursor = sorted union; ConcatenatingCursor (key-disjoint ordered tables) = concatenation; BoundsCursor with all 25 bound pairs = restriction; PruningCursor at read timestamps {0,1,2,3,MAX} = newest version <= t per key unless a tombstone; LazyCursor = the cursor it opens. Every program of <= L calls (quick 3; thorough up to 5 on the small families) including every direction reversal is compared with the specification cursor after the last call.",
         "note": "436 k cases / 233 M programs in the quick tier. The compositions lsmtk actually builds are exercised end to end by C03.",
     },
     "C12": {
@@ -268,7 +268,7 @@ CHECKS = {
             "thorough": [{"ws": "harness", "bin": "damage", "args": [], "timeout": 7200}],
         },
         "text": "15 pristine files (19 thorough): SSTs with 1-3 data blocks under 3 option rows (bloom bits, restart intervals), logs with whole, split and padded frames (1 MiB boundary), manifests with 1-3 edits and a rollover; thorough adds a two-SST store. Per file and region (data / index / filter / final block / trailing offset; log headers / payload / padding; manifest CRC digits / payload / separators) every single-bit flip at every offset, the overwrites {00, FF, b^80, b+1}, every truncation length, six appended suffixes, and in the thorough tier all pairs of single-byte damages in the regions no checksum covers (6.1 M cases). On each damaged file the whole read program runs (Sst::new, metadata, forward and backward walk, load of every key at several timestamps; LogIterator drain, log_to_builder, log_to_setsum; ManifestIterator, Manifest::open, Manifest::verify; KeyValueStore::open + read-back) and every step must return an error or exactly the pristine observation; no panic, no abort (child processes), no allocation beyond the stated bound.",
-        "note": "Accepted by contract: a truncated/extended log reading as a prefix of whole batches (C12), a truncated manifest reading as a prefix of whole edits (C13), file_size of a file whose length changed. For the two ~1 MiB logs byte damage is restricted to stated windows around headers, padding and the block boundary. Four classes of genuine findings are recorded as known (unchecksummed SST final block and its store-level consequence; appended duplicate frame / edit).",
+        "note": "Accepted by contract: a truncated/extended log reading as a prefix of whole batches (C12), a truncated manifest reading as a prefix of whole edits (C13), file_size of a file whose length changed. For the two ~1 MiB logs byte damage is restricted to stated windows around headers, padding and the block boundary. Four classes of genuine findings are recorded as known (unchecksummed SST final block and its store-level consequence; appended duplicate frame / edit). Text formats: at every offset two adjacent bytes are additionally replaced by one well-formed two-byte UTF-8 character (a lone high byte is refused wholesale as invalid UTF-8; a well-formed character is not, and it shifts every later char boundary), and two suffix lines carry such a character at byte 7 and at byte 8.",
     },
 }
 
